@@ -122,7 +122,7 @@ func genC16(r *h.Rand) c16cfg {
 			e := gen.OM{{K: "E1", V: weakScalar(r)}, {K: "E2", V: "two words"}}
 			if r.Chance(40) {
 				// strings that end in (or contain) line breaks are data too
-				e.Set("E3", []string{"ends with a break\n", "two\nlines", "\nleading", "trailing blank \n\n"}[r.Intn(4)])
+				e.Set("E3", []string{"ends with a break\n", "two\nlines", "\nleading", "trailing blank \n\n", "rocket \U0001F680 a/b/c \u00e9t\u00e9", "</script> & a/b"}[r.Intn(6)])
 			}
 			t.Set("env", e)
 		}
@@ -490,6 +490,11 @@ func c16(c *h.Ctx) {
 				}
 				return gen.YAML(tree)
 			case ".json":
+				if i%2 == 1 {
+					// the way other JSON writers spell the same text: `/` escaped, everything outside ASCII as
+					// \uXXXX (characters beyond the BMP as a surrogate pair)
+					return gen.JSONASCII(gen.JSON(tree))
+				}
 				return gen.JSON(tree)
 			}
 			return gen.TOML(tree, inline)
@@ -594,25 +599,45 @@ func c16(c *h.Ctx) {
 		// outside the statement)
 		if urlBase != "" && cfg.imported == nil && !cfg.importDir && i%c.N(3, 1) == 0 {
 			d := real + "/yaml"
-			variants := []struct{ name, path, ctype, body string }{
-				{"url-json-by-content-type", fmt.Sprintf("/%d/config", i), "application/json; charset=utf-8", mk(".json", cfg.tree)},
-				{"url-json-by-extension", fmt.Sprintf("/%d/cfg.json", i), "text/plain", mk(".json", cfg.tree)},
-				{"url-toml-by-extension", fmt.Sprintf("/%d/cfg.toml", i), "text/plain", mk(".toml", cfg.tree)},
-				{"url-yaml-by-extension", fmt.Sprintf("/%d/cfg.yaml", i), "", mk(".yaml", cfg.tree)},
-				{"url-yaml-by-default", fmt.Sprintf("/%d/plain", i), "application/octet-stream", mk(".yaml", cfg.tree)},
+			variants := []struct{ name, path, suffix, ctype, body string }{
+				{"url-json-by-content-type", fmt.Sprintf("/%d/config", i), "", "application/json; charset=utf-8", mk(".json", cfg.tree)},
+				{"url-json-by-extension", fmt.Sprintf("/%d/cfg.json", i), "", "text/plain", mk(".json", cfg.tree)},
+				{"url-toml-by-extension", fmt.Sprintf("/%d/cfg.toml", i), "", "text/plain", mk(".toml", cfg.tree)},
+				{"url-yaml-by-extension", fmt.Sprintf("/%d/cfg.yaml", i), "", "", mk(".yaml", cfg.tree)},
+				{"url-yaml-by-default", fmt.Sprintf("/%d/plain", i), "", "application/octet-stream", mk(".yaml", cfg.tree)},
+				// the address of a shared configuration often carries more than a path
+				{"url-toml-with-query", fmt.Sprintf("/%d/q/cfg.toml", i), "?token=abc&v=1.2", "text/plain", mk(".toml", cfg.tree)},
+				{"url-json-with-query-and-fragment", fmt.Sprintf("/%d/q/cfg.json", i), "?ref=main#tasks", "text/plain", mk(".json", cfg.tree)},
+				{"url-yaml-with-query-naming-another-format", fmt.Sprintf("/%d/q/cfg.yaml", i), "?alt=cfg.toml", "text/plain", mk(".yaml", cfg.tree)},
 			}
 			for _, v := range variants {
 				serve(v.path, v.ctype, v.body)
 				for _, args := range append([][]string{{"list"}}, showArgs(cfg)...) {
-					res := tc{Dir: d, Env: []string{"TRACE=" + d + "/trace.url"}, Timeout: 40 * time.Second}.run(c, append([]string{"-c", urlBase + v.path}, args...)...)
-					c.Eval(1)
-					c.Count("url_observations", 1)
-					o := fmt.Sprintf("exit=%d\n%s", res.Exit, strings.ReplaceAll(stripANSI(string(res.Stdout)), d, "<DIR>"))
-					want := results[".yaml"][strings.Join(args, ":")]
-					if j := strings.Index(want, "\ntrace="); j >= 0 {
-						want = want[:j]
+					fetch := func() (string, h.ProcResult) {
+						res := tc{Dir: d, Env: []string{"TRACE=" + d + "/trace.url"}, Timeout: 40 * time.Second}.run(c, append([]string{"-c", urlBase + v.path + v.suffix}, args...)...)
+						c.Eval(1)
+						c.Count("url_observations", 1)
+						return fmt.Sprintf("exit=%d\n%s", res.Exit, strings.ReplaceAll(stripANSI(string(res.Stdout)), d, "<DIR>")), res
 					}
-					want = strings.Replace(want, " timedout=false", "", 1)
+					reduce := func(want string) string {
+						if j := strings.Index(want, "\ntrace="); j >= 0 {
+							want = want[:j]
+						}
+						return strings.Replace(want, " timedout=false", "", 1)
+					}
+					o, res := fetch()
+					want := reduce(results[".yaml"][strings.Join(args, ":")])
+					if o != want {
+						// as for files: a difference that is one is seen again when both sides are asked again
+						w2, _ := observe(".yaml", strings.Join(args, ":"))
+						o2, res2 := fetch()
+						if o2 == reduce(w2) {
+							c.Count("differences_not_seen_again", 1)
+							c.Inconclusive(fmt.Sprintf("case %d: %s differed once from the YAML file and agreed when repeated", i, v.name))
+							continue
+						}
+						o, res, want = o2, res2, reduce(w2)
+					}
 					if o != want {
 						c.Violate("format-difference/"+v.name, fmt.Sprintf("`%s` of the configuration fetched from %s differs from the YAML file:\n--- url\n%s\n--- yaml file\n%s\nstderr: %s", strings.Join(args, " "), v.path, clip(o, 800), clip(want, 800), clip(stripANSI(string(res.Stderr)), 300)),
 							map[string]interface{}{"variant": v.name, "content_type": v.ctype, "body": v.body})
